@@ -298,7 +298,18 @@ fn arg(v: i64) {
 
 fn ret(op: &str, c: i64, v: i64, r: i64, own: i64) {
     let (steps, q) = sched::op_end();
-    sched::log(json!({"e": "ret", "t": sched::tid() as i64, "op": op, "c": c, "v": v, "r": r, "n": steps as i64, "own": own}));
+    // which bookkeeping node this thread considers its own, and whether that node is reserved (in_use == USED)
+    let (tn, tu) = match arc_swap::verif::thread_node() {
+        Some(a) => {
+            let ns = arc_swap::verif::nodes();
+            match ns.iter().position(|n| n.addr == a) {
+                Some(p) => ((ns.len() - 1 - p) as i64, ns[p].in_use_val as i64),
+                None => (-2, -1),
+            }
+        }
+        None => (-1, -1),
+    };
+    sched::log(json!({"e": "ret", "t": sched::tid() as i64, "op": op, "c": c, "v": v, "r": r, "n": steps as i64, "own": own, "tn": tn, "tu": tu}));
     if q {
         quiescent();
     }
